@@ -23,6 +23,7 @@ SI = "<store::fs::StoreInstance<'a> as ranger::Store<sync::SignedEntry>>::"
 
 
 EXPLANATION += ' (R5, round 10) RecordsRange::next evaluated call after call over scripted rows: every row of the scan in scan order, markers included; a failing row is an error.'
+EXPLANATION += ' (R6, round 12) the range count (get_range_len, default and every override) evaluated over scripted scans: the number of rows the scan of the range given yields, whatever its end points; a failing scan or row is an error.'
 
 
 def _fields(body, op, **kw):
@@ -570,9 +571,65 @@ def r5(ctx):
     ctx.floor("C08.R5", 4)
 
 
+def r6(ctx):
+    """the range count (ranger::Store::get_range_len, which decides between splitting a range and sending its entries) evaluated in
+    its default form and in every override an implementation gives: the number of rows the range scan of *this* range yields -
+    whatever the end points are (they come from the peer and may name another namespace: get_range clamps them, a count that
+    answers 0 for them disagrees with the scan, C08-12) -, a failing scan or row is an error"""
+    range_len(ctx, "C08.R6")
+    ctx.floor("C08.R6", 5)
+
+
+def range_len(ctx, rule):
+    from . import feval as E, coll
+    f = ctx.facts
+    impls = sorted(p for p in f.bodies if re.match(r"^(<.* as ranger::Store<.*>>|ranger::Store)::get_range_len$", p) and not p.startswith("<&mut "))
+    if "ranger::Store::get_range_len" not in impls:
+        raise mir.AnchorMissing("ranger::Store::get_range_len (the default range count) not found")
+    for path in impls:
+        b = f.body(path)
+        ctx.touch(b)
+        for label, rows in (("empty", []), ("one", ["ok"]), ("three", ["ok", "ok", "ok"]), ("failing-row", ["ok", "fail", "ok"]), ("scan-fails", None)):
+            C = coll.Collections(f)
+            scans = []
+
+            def oracle(kind, name, payload, site, rows=rows):
+                if kind in ("eq", "cmp"):
+                    a, b2 = str(name).strip("&*"), str(payload).strip("&*")
+                    return (a == b2) if kind == "eq" else ((a > b2) - (a < b2))
+                if kind != "call":
+                    return None
+                t, args, it = payload
+                names = [it.tokname(a).strip("&*") for a in args]
+                if name == "get_range":
+                    scans.append(names[1] if len(names) > 1 else "?")
+                    if rows is None:
+                        return E.Err(E.Tok("storage-error"))
+                    return E.Ok(coll.seq("vec", [E.Ok(E.Tok("entry%d" % i)) if r == "ok" else E.Err(E.Tok("row-error")) for i, r in enumerate(rows)]))
+                if name in ("clone",) and len(args) == 1:
+                    return args[0]
+                return C.handle(kind, name, payload, site)
+            heap = {"self": E.Tok("store")}
+            if path.startswith("<store::fs::StoreInstance"):
+                heap["self"] = E.struct(f, "store::fs::StoreInstance", namespace=E.Tok("this-namespace"), store=E.Tok("store"))
+            try:
+                ret, itp = E.run_it(f, path, [E.href("self"), E.Tok("range")], heap, oracle, bind={"ranger::Store::get_range": "?"})
+                got = E.describe(itp.resolve(ret), f)
+            except E.Unsupported as e:
+                got = "UNSUPPORTED-FORM: %s" % e
+            if rows is None or "fail" in rows:
+                ok = got.startswith("Err")
+                want = "an error"
+            else:
+                ok = got == "Ok(%d)" % len(rows)
+                want = "Ok(%d)" % len(rows)
+            ok = ok and scans == ["range"]
+            ctx.check(ok, rule, path, "range-count[%s]" % label, "returns %s after scanning %s; spec: %s, from one scan of the range given" % (got, scans, want), b.sp)
+
 def run(ctx):
     ctx.run_rule("C08.R1", r1)
     ctx.run_rule("C08.R2", r2)
     ctx.run_rule("C08.R3", r3)
     ctx.run_rule("C08.R4", r4)
     ctx.run_rule("C08.R5", r5)
+    ctx.run_rule("C08.R6", r6)
